@@ -42,7 +42,7 @@ func init() {
 			"kill at an operation or after k bytes of a write, unreadable file), then restarts and a final healthy generation. Profile enum: for each seeded base scenario the " +
 			"fault-free run records the file-system trace; the scenario is then re-run once per fault point: every create/write/close of every chunk file x {kill, error} and for " +
 			"write every byte offset k in {0,1,n/2,n-1,n} plus random ones as short write, error after k bytes and kill after k bytes. Oracle: every chunk any consumer ever receives is " +
-			"byte-identical to what was produced; an intact readable file is delivered by the final healthy generation whatever damaged files sit beside it. Non-trivial: a disk fault fired.",
+			"byte-identical to what was produced; an intact readable file is delivered by the final healthy generation whatever damaged files sit beside it; nothing that no producer made is forwarded (temporary or foreign files); per generation without a kill, chunks that are gone plus zero-length files removed at recovery <= dropped_chunks_total (accounting clause). Non-trivial: a disk fault fired.",
 		Real: []string{"buffer/hybridbuffer", "util/files.go (WriteFileAt/ReadFileAt/UnlinkFileAt/StatFileAt)"},
 		Stub: []string{"disk (simfs) with per-operation fault hook and process-kill model", "producer", "scripted consumer"},
 		Assumption: []string{
@@ -112,7 +112,7 @@ func init() {
 		Level: "exploration",
 		Parts: []part{{"A", "c06", 3200, 1, 200}},
 		Rule: "world A: each run = one seeded scenario (1-4 syslog clients with bursts, pauses around the flush interval and records split across writes; 1-5 key tuples; knobs for batch size, memory window, chunk limits, message mode, timeouts; a script of upstream behaviour per connection attempt: refuse / connect timeout / reset after k messages / reset mid-stream / never ACK / late ACK / ACK of unknown id / accept but never read / close; graceful stop+restart generations on the same queue directory; SIGUSR1; a fault-free tail) executed under one seeded goroutine schedule. " +
-			"Profile c06 draws key values from an adversarial alphabet (empty, a, b, ab, bc, comma, 'a,b', slash, NUL, dots, long) with colliding pairs such as ('ab','c')/('a','bc') and ('a,b','c')/('a','b,c') in most runs, 1-3 key fields, templates with substrings, restarts and never-ACK so that recovery from .id files runs. Oracle C06: every delivered or queued chunk carries records of one key tuple only and the tag the template gives for that tuple (independent expander); queue directories and key tuples are in bijection judged from chunk contents; every queue file found at the last start is transmitted again during the healthy phase without new traffic for its key set. Non-trivial: at least one fault fired and oracle obligations were evaluated; distinct = (scenario hash, context-switch hash).",
+			"Profile c06 draws key values from an adversarial alphabet (empty, a, b, ab, bc, comma, 'a,b', slash, NUL, dots, long) with colliding pairs such as ('ab','c')/('a','bc') and ('a,b','c')/('a','b,c') in most runs, 1-3 key fields, templates with substrings and single-variable templates ($app, which the tag builder returns without copying), restarts and never-ACK so that recovery from .id files runs. Oracle C06: every delivered or queued chunk carries records of one key tuple only and the tag the template gives for that tuple (independent expander); queue directories and key tuples are in bijection judged from chunk contents; every queue file found at the last start is transmitted again during the healthy phase without new traffic for its key set. Non-trivial: at least one fault fired and oracle obligations were evaluated; distinct = (scenario hash, context-switch hash).",
 		Real: []string{"the whole agent as run.Run assembles it: run.Loader/Reloader, sysloginput, tcplistener, syslogparser, transforms, byKeySet orchestrator, pipelines, fluentdforward serializer/chunk maker/client, baseoutput, hybridbuffer, util/files.go, metrics", "gotils channels, promext", "fluentlib forwardprotocol + msgpack (decoding on the fake server side)"},
 		Stub: []string{"TCP both ways (simnet)", "disk (simfs)", "signals (simsignal)", "syslog clients", "fake Fluentd Forward server scripted per connection attempt", "driver (graceful stop + restart, SIGHUP with rewritten config file, SIGUSR1)", "sync.Pool (simsync.Pool)"},
 		Assumption: []string{
@@ -151,7 +151,7 @@ func init() {
 		Level: "exploration",
 		Parts: []part{{"A", "c12", 3200, 1, 200}},
 		Rule: "world A: each run = one seeded scenario (1-4 syslog clients with bursts, pauses around the flush interval and records split across writes; 1-5 key tuples; knobs for batch size, memory window, chunk limits, message mode, timeouts; a script of upstream behaviour per connection attempt: refuse / connect timeout / reset after k messages / reset mid-stream / never ACK / late ACK / ACK of unknown id / accept but never read / close; graceful stop+restart generations on the same queue directory; SIGUSR1; a fault-free tail) executed under one seeded goroutine schedule. " +
-			"Profile c12 pools every record (pool threshold 32 B), lets the decision stream drive sync.Pool (newest / random / fresh object), mixes short, long, multi-line and marker-dropped records on shared pipelines. Oracle C12: every delivered event, first delivery and duplicates, equals the event of its own record on a fresh single-record pipeline (multi-line records: of a prefix of their lines when a flush split them); no filtered record delivered; no event without a sent record. Non-trivial: at least one fault fired and oracle obligations were evaluated; distinct = (scenario hash, context-switch hash).",
+			"Profile c12 pools every record (pool threshold 32 B), lets the decision stream drive sync.Pool (newest / random / fresh object), mixes short, long, multi-line, escaped and marker-dropped records on shared pipelines; pool thresholds inside the range of record lengths; the configuration has an unescape step, a multi-part addFields in the input extractions, a conditional if/addFields writing a late field, and in half of the runs a second output/buffer pair (reference count 2) with its own always-healthy upstream; in half of the runs released backing buffers are overwritten with 0xEE. Oracle C12: every delivered event on either output, first delivery and duplicates, equals the event of its own record on a fresh single-record pipeline for that output (multi-line records: of a prefix of their lines when a flush split them); no filtered record delivered; no event without a sent record; the metrics can be gathered. Non-trivial: at least one fault fired and oracle obligations were evaluated; distinct = (scenario hash, context-switch hash).",
 		Real: []string{"the whole agent as run.Run assembles it: run.Loader/Reloader, sysloginput, tcplistener, syslogparser, transforms, byKeySet orchestrator, pipelines, fluentdforward serializer/chunk maker/client, baseoutput, hybridbuffer, util/files.go, metrics", "gotils channels, promext", "fluentlib forwardprotocol + msgpack (decoding on the fake server side)"},
 		Stub: []string{"TCP both ways (simnet)", "disk (simfs)", "signals (simsignal)", "syslog clients", "fake Fluentd Forward server scripted per connection attempt", "driver (graceful stop + restart, SIGHUP with rewritten config file, SIGUSR1)", "sync.Pool (simsync.Pool)"},
 		Assumption: []string{
@@ -164,7 +164,7 @@ func init() {
 		Level: "exploration",
 		Parts: []part{{"A", "c18", 2800, 3, 200}, {"B", "stop", 30000, 1, 0}},
 		Rule: "world A: each run = one seeded scenario (1-4 syslog clients with bursts, pauses around the flush interval and records split across writes; 1-5 key tuples; knobs for batch size, memory window, chunk limits, message mode, timeouts; a script of upstream behaviour per connection attempt: refuse / connect timeout / reset after k messages / reset mid-stream / never ACK / late ACK / ACK of unknown id / accept but never read / close; graceful stop+restart generations on the same queue directory; SIGUSR1; a fault-free tail) executed under one seeded goroutine schedule. " +
-			"Profile c18 stops the agent 2-4 times per run at seeded moments while the upstream refuses, resets, never ACKs, never reads or is late, with loads from idle to a full memory window. Oracle C18: every stop returns within 2*ICT + (BufferShutDownTimeout + 2*ICT) computed from the timeout values this run configured; no 'BUG: could not stop' line; after the last stop every read record is acknowledged, on disk or counted dropped; a shutdown that never returns ends the run as stuck. World B's stop profile adds the client-level bound (L2). Non-trivial: at least one fault fired and oracle obligations were evaluated; distinct = (scenario hash, context-switch hash).",
+			"Profile c18 stops the agent 2-4 times per run at seeded moments while the upstream refuses, resets, never ACKs, never reads or is late, with loads from idle to a full memory window. Oracle C18: every stop returns within 2*ICT + (BufferShutDownTimeout + 2*ICT) computed from the timeout values this run configured; no 'BUG: could not stop' line; after the last stop every read record is acknowledged, on disk or counted dropped; half of the clients never close their connection (the listener has to); a stop that has not returned after three times the bound ends the run as stop-never-returned. World B's stop profile adds the client-level bound (L2). Non-trivial: at least one fault fired and oracle obligations were evaluated; distinct = (scenario hash, context-switch hash).",
 		Real: []string{"the whole agent as run.Run assembles it: run.Loader/Reloader, sysloginput, tcplistener, syslogparser, transforms, byKeySet orchestrator, pipelines, fluentdforward serializer/chunk maker/client, baseoutput, hybridbuffer, util/files.go, metrics", "gotils channels, promext", "fluentlib forwardprotocol + msgpack (decoding on the fake server side)"},
 		Stub: []string{"TCP both ways (simnet)", "disk (simfs)", "signals (simsignal)", "syslog clients", "fake Fluentd Forward server scripted per connection attempt", "driver (graceful stop + restart, SIGHUP with rewritten config file, SIGUSR1)", "sync.Pool (simsync.Pool)"},
 		Assumption: []string{
@@ -177,7 +177,7 @@ func init() {
 		Level: "exploration",
 		Parts: []part{{"A", "c19", 3200, 1, 200}},
 		Rule: "world A: each run = one seeded scenario (1-4 syslog clients with bursts, pauses around the flush interval and records split across writes; 1-5 key tuples; knobs for batch size, memory window, chunk limits, message mode, timeouts; a script of upstream behaviour per connection attempt: refuse / connect timeout / reset after k messages / reset mid-stream / never ACK / late ACK / ACK of unknown id / accept but never read / close; graceful stop+restart generations on the same queue directory; SIGUSR1; a fault-free tail) executed under one seeded goroutine schedule. " +
-			"Oracle C19 after every stop, from the loader's metric querier against harness-observed events: input passed+dropped == messages framed from what the agent read; pipeline passed+dropped == input passed; labelled{marker} == pipeline dropped == records read with the marker; buffer input == chunks created + chunk files recovered == consumed + leftover + dropped + pending; chunk files on disk == input - consumed (no drop); output acknowledged == buffer consumed <= ACKs the upstream wrote; attempts >= forwarded >= acknowledged. Non-trivial: at least one fault fired and oracle obligations were evaluated; distinct = (scenario hash, context-switch hash).",
+			"Oracle C19 after every stop, from the loader's metric querier against harness-observed events: input passed+dropped == messages framed from what the agent read; pipeline passed+dropped == input passed; labelled{marker} == pipeline dropped == records read with the marker; buffer input == chunks created + chunk files recovered == consumed + leftover + dropped + pending; chunk files on disk == input - consumed (no drop); output acknowledged == buffer consumed <= ACKs the upstream wrote; attempts >= forwarded >= acknowledged; E5 per key-label tuple, pipeline passed+dropped == fully read records with exactly those key values, nothing counted under a tuple no record has; E6 the same for labelled{marker}; half of the runs configure two metric keys with value pairs whose concatenations coincide (h+1s, h1+s); gathering the metrics must not fail. Non-trivial: at least one fault fired and oracle obligations were evaluated; distinct = (scenario hash, context-switch hash).",
 		Real: []string{"the whole agent as run.Run assembles it: run.Loader/Reloader, sysloginput, tcplistener, syslogparser, transforms, byKeySet orchestrator, pipelines, fluentdforward serializer/chunk maker/client, baseoutput, hybridbuffer, util/files.go, metrics", "gotils channels, promext", "fluentlib forwardprotocol + msgpack (decoding on the fake server side)"},
 		Stub: []string{"TCP both ways (simnet)", "disk (simfs)", "signals (simsignal)", "syslog clients", "fake Fluentd Forward server scripted per connection attempt", "driver (graceful stop + restart, SIGHUP with rewritten config file, SIGUSR1)", "sync.Pool (simsync.Pool)"},
 		Assumption: []string{
